@@ -319,7 +319,9 @@ def handleDet (id sc tids run wire results closes obs crashed unmodelled events 
     let s := tr.s
     let mrun := match tr.bad with
       | some b => b
-      | none => if quiescent sc s then "done" else "open"
+      | none =>
+        -- the hypothesis of complete_exactly_once: when every thread is through, nothing is queued
+        if quiescent sc s then (if s.pending.isEmpty then "done" else "done-but-pending") else "open"
     let unm := if unmodelled = "-" then [] else splitOnChar unmodelled ','
     let strange := unm.filter fun l => !passLabels.contains l && !parkLabels.contains l
     let model := joinWith " " [s!"run={mrun}", showWire s, showResults sc s, showCloses s, showNats s.obs,
